@@ -18,7 +18,8 @@ def main():
     for f in sorted(os.listdir(d)):
         if f.startswith("c") and f.endswith(".py"):
             m = importlib.import_module("props." + f[:-3])
-            props[m.PROP.id] = m.PROP
+            if m.PROP.claim:
+                props[m.PROP.id] = m.PROP
     all_ids = [json.loads(l)["id"] for l in open(os.path.join(ROOT, "properties.jsonl"))]
     hooks_file = os.path.join(ROOT, "hooks.json")
     hook_commits = json.load(open(hooks_file))["source_commits"] if os.path.exists(hooks_file) else []
